@@ -8,6 +8,7 @@
 #include <cstdlib>
 #include <fstream>
 #include <limits>
+#include <cerrno>
 #include <memory>
 #include <unistd.h>
 
@@ -97,6 +98,13 @@ template <typename T> struct Integrand
     bool wants = false;
     std::vector<FillSpec<T>> fills;
     std::vector<std::vector<T>> tables;
+    // state kept in the function object itself (what a user reads back through integrand.function() after the run)
+    std::uint64_t own_calls = 0;
+    // nest: 1 = while a point is being evaluated the integrand runs a small integration of its own with the same integrator and the same
+    // template instantiation (function objects of one type share it); errno_edom: the integrand leaves errno == EDOM behind, as a
+    // libm call with an argument outside the domain does
+    int nest = 0; bool errno_edom = false; std::string nest_kind;
+    void nested_run() const;
 
     T src(Src<T> const& s, PointView<T> const& pv, std::uint64_t idx, T v) const
     {
@@ -111,6 +119,9 @@ template <typename T> struct Integrand
     }
     template <typename P> T eval(P const& p, hep::projector<T>* pr)
     {
+        ++own_calls;
+        if (errno_edom) errno = EDOM;
+        if (nest) nested_run();
         std::uint64_t const idx = g_ctx->idx++;
         PointView<T> pv = view(p);
         std::size_t slot = 0;
@@ -148,6 +159,9 @@ template <typename T> struct Integrand
 template <typename T> struct Map
 {
     bool grid = false;
+    // early: the densities are written during the coordinate call already and the density call only returns the jacobian
+    // (the documentation of multi_channel_map allows it and the library's examples are written that way)
+    bool early = false;
     std::vector<T> ctab, dtab, jtab;
     std::size_t mapdims = 0, channels = 0;
     T kappa = T(1.0);
@@ -185,11 +199,17 @@ template <typename T> struct Map
             else { for (std::size_t k = 0; k != coords.size(); ++k) coords[k] = cyc(ctab, cur * mapdims + k); }
             saved_coords = &coords; saved_dens = &dens; saved_content = coords;
             if (g_ctx->trace) g_ctx->events.push_back(Sx::list({Sx::sym("mc"), Sx::num(channel), efloats(us), enums(enabled)}));
+            if (early) write_densities(coords, dens);
             return T(1.0);
         }
         if (&coords != saved_coords || &dens != saved_dens || coords != saved_content)
             g_ctx->events.push_back(Sx::list({Sx::sym("buffer_violation"), Sx::num(cur)}));
         if (g_ctx->trace) g_ctx->events.push_back(Sx::list({Sx::sym("md"), Sx::num(channel), efloats(us), efloats(coords), enums(enabled)}));
+        if (!early) write_densities(coords, dens);
+        return grid ? kappa : cyc(jtab, cur);
+    }
+    void write_densities(std::vector<T> const& coords, std::vector<T>& dens) const
+    {
         if (grid)
         {
             for (std::size_t j = 0; j != dens.size() && j != grids.size(); ++j)
@@ -199,10 +219,9 @@ template <typename T> struct Map
                     acc = acc / (T(grids[j][k].size() - 1) * grid_width(grids[j][k], coords[k]));
                 dens[j] = acc;
             }
-            return kappa;
+            return;
         }
         for (std::size_t j = 0; j != dens.size(); ++j) dens[j] = cyc(dtab, cur * channels + j);
-        return cyc(jtab, cur);
     }
 };
 
@@ -385,14 +404,41 @@ template <typename C> struct MpiScriptCb
 };
 #endif
 
+// the integration an integrand with nest != 0 runs while one of its points is being evaluated: same integrator, same function object
+// type, same engine and checkpoint types (hence the same instantiation of the *_iteration templates), its own checkpoint and context
+template <typename T> void Integrand<T>::nested_run() const
+{
+    Ctx inner; inner.seed = 77; Ctx* const saved = g_ctx; g_ctx = &inner;
+    struct Restore { Ctx* s; ~Restore() { g_ctx = s; } } restore{saved};
+    Integrand<T> g; g.poly = true; g.ab = {{T(0.5), T(1.0)}, {T(1.0), T(0.5)}};
+    std::vector<std::size_t> const calls{3, 2};
+    if (nest_kind == "plain")
+        hep::plain(hep::make_integrand<T>(g, 2), calls, hep::make_plain_chkpt<T, script_engine>(script_engine(5)), ScriptCb<PChk<T>>{{}});
+    else if (nest_kind == "vegas")
+        hep::vegas(hep::make_integrand<T>(g, 2), calls, hep::make_vegas_chkpt<T, script_engine>(3, T(1.5), script_engine(5)), ScriptCb<VChk<T>>{{}});
+    else
+    {
+        Map<T> m; m.mapdims = 2; m.channels = 2; m.dtab = {T(1.0), T(2.0)}; m.jtab = {T(1.0)};
+        hep::multi_channel(hep::make_multi_channel_integrand<T>(g, 2, m, 2, 2), calls, hep::make_multi_channel_chkpt<T, script_engine>(T(), T(0.25), script_engine(5)), ScriptCb<MChk<T>>{{}});
+    }
+}
+
+// a function object that returns a type wider than T (values taken from a table by call number)
+template <typename T> struct WideIntegrand
+{
+    std::vector<long double> wide;
+    template <typename P> long double operator()(P const&) { std::uint64_t const idx = g_ctx->idx++; return wide.empty() ? 0.0L : wide[idx % wide.size()]; }
+};
+
 template <typename T> struct Spec
 {
+    std::vector<long double> fwide;
     std::string kind; std::size_t dims = 1, channels = 1, mapdims = 1;
     std::vector<hep::distribution_parameters<T>> dists;
     bool force_acc = false;
     Integrand<T> f; Map<T> map;
     bool builtin = true; int mode = 0; T target = T(); std::vector<bool> script;
-    std::string filename; bool keepfile = false; bool cbbase = false; bool cbref = false;
+    std::string filename; bool keepfile = false; bool cbbase = false; bool cbref = false; int subcomm = 0; int ofmt = 0; bool iexc = false; int coutfmt = 0;
 };
 
 #ifdef VERIF_MPI
@@ -421,7 +467,7 @@ template <typename T, typename C, typename MkMpi> Sx run_mpi_op(Spec<T> const& s
             out[r] = run_mpi_one(mine, calls, chk);
             done[r] = 1;
             g_ctx = nullptr;
-        });
+        }, sp.subcomm);
     }
     catch (...) { std::cout.rdbuf(old); throw; }
     std::cout.rdbuf(old);
@@ -454,6 +500,19 @@ template <typename T, typename C, typename MkMpi> Sx run_mpi_op(Spec<T> const& s
 }
 #endif
 
+// the state a user's stream may be in when it is handed to the library (bit set): 1 fixed, 2 scientific (3 = both: hexfloat),
+// 4 precision 3, 8 precision 30, 16 showpoint, 32 width 14 with fill '*' (applies to the first item only), 64 left, 128 boolalpha
+inline void user_format(std::ios_base& s, int f)
+{
+    if (f & 1) s.setf(std::ios_base::fixed);
+    if (f & 2) s.setf(std::ios_base::scientific);
+    if (f & 4) s.precision(3);
+    if (f & 8) s.precision(30);
+    if (f & 16) s.setf(std::ios_base::showpoint);
+    if (f & 64) s.setf(std::ios_base::left, std::ios_base::adjustfield);
+    if (f & 128) s.setf(std::ios_base::boolalpha);
+}
+
 template <typename T, typename C, typename Mk, typename MkMpi> Sx run_ops(Spec<T>& sp, Sx const& ops, C chk, Mk run_one, MkMpi run_mpi_one)
 {
     Sx out = Sx::list();
@@ -483,11 +542,12 @@ template <typename T, typename C, typename Mk, typename MkMpi> Sx run_ops(Spec<T
             catch (std::out_of_range const&) { out.add(Sx::list({Sx::sym("rollback"), Sx::sym("throw")})); }
         }
         else if (o == "dump") out.add(Sx::list({Sx::sym("dump"), e_chk<T>(chk)}));
-        else if (o == "text") { std::ostringstream t; chk.serialize(t); out.add(Sx::list({Sx::sym("text"), Sx::str(t.str())})); }
+        else if (o == "text") { std::ostringstream t; user_format(t, sp.ofmt); chk.serialize(t); out.add(Sx::list({Sx::sym("text"), Sx::str(t.str())})); }
         else if (o == "reload")
         {
-            std::ostringstream t; chk.serialize(t);
+            std::ostringstream t; user_format(t, sp.ofmt); chk.serialize(t);
             std::istringstream in(t.str());
+            if (sp.iexc) in.exceptions(std::ios::failbit | std::ios::badbit);     // a user who wants read errors reported by exceptions
             C n = reload<T>(chk, in);
             if (in.fail()) { out.add(Sx::list({Sx::sym("reload"), Sx::sym("stream_failed")})); break; }
             chk = n;
@@ -518,6 +578,7 @@ template <typename T, typename C, typename Mk, typename MkMpi> Sx run_ops(Spec<T
             // read a checkpoint from a file (C18: resume from what a killed process left behind)
             std::ifstream in(op.at(1).S_(), std::ios::binary);
             if (!in) { out.add(Sx::list({Sx::sym("load"), Sx::sym("no_file")})); continue; }
+            if (sp.iexc) in.exceptions(std::ios::failbit | std::ios::badbit);
             C n = reload<T>(chk, in);
             if (in.fail()) { out.add(Sx::list({Sx::sym("load"), Sx::sym("stream_failed")})); break; }
             chk = n;
@@ -556,6 +617,13 @@ template <typename T> hep::multi_channel_integrand<T, Integrand<T>, Map<T>, true
 template <typename T> hep::multi_channel_integrand<T, Integrand<T>, Map<T>, false> mk_mc0(Spec<T>& sp)
 { return hep::make_multi_channel_integrand<T>(sp.f, sp.dims, sp.map, sp.mapdims, sp.channels); }
 
+// the function object stored in the integrand the user handed over is the one that must have been invoked (a user reads its state back
+// through integrand.function() after the run): its own call counter against the calls the harness saw
+inline void check_function_state(std::uint64_t own, std::uint64_t seen)
+{
+    if (own != seen) g_ctx->cbs.push_back(Sx::list({Sx::sym("integrand_object_not_invoked"), Sx::num(own), Sx::num(seen)}));
+}
+
 template <typename T> Sx run_case(std::string const& cmd, Sx const& a)
 {
     if (cmd != "run") return Sx::list({Sx::sym("unknown_command"), Sx::sym(cmd)});
@@ -582,6 +650,10 @@ template <typename T> Sx run_case(std::string const& cmd, Sx const& a)
     if (fs.at(0).is_sym("poly")) { sp.f.poly = true; for (auto const& p : fs.at(1).L_()) sp.f.ab.emplace_back(static_cast<T>(p.at(0).F_()), static_cast<T>(p.at(1).F_())); }
     else sp.f.tab = floats<T>(fs.at(1));
     sp.f.wants = num("wants", 0) != 0;
+    if (Sx const* e = a.find("fwide")) for (auto const& x : e->at(1).L_()) sp.fwide.push_back(x.F_());
+    sp.f.nest = static_cast<int>(num("nest", 0)); sp.f.nest_kind = sp.kind;
+    sp.f.errno_edom = num("errno", 0) != 0;
+    sp.map.early = num("mapearly", 0) != 0;
     if (Sx const* e = a.find("tables")) for (auto const& t : e->at(1).L_()) sp.f.tables.push_back(floats<T>(t));
     if (Sx const* e = a.find("fills"))
         for (auto const& f : e->at(1).L_())
@@ -609,6 +681,19 @@ template <typename T> Sx run_case(std::string const& cmd, Sx const& a)
     if (Sx const* e = a.find("keepfile")) { sp.filename = e->at(1).S_(); sp.keepfile = true; }
     sp.cbbase = num("cbbase", 0) != 0;
     sp.cbref = num("cbref", 0) != 0;
+    sp.subcomm = static_cast<int>(num("subcomm", 0));
+    sp.ofmt = static_cast<int>(num("ofmt", 0));
+    sp.iexc = num("iexc", 0) != 0;
+    sp.coutfmt = static_cast<int>(num("coutfmt", 0));
+    // the state the program left std::cout in before it handed control to the library (restored when the case ends)
+    struct CoutGuard
+    {
+        std::ios_base::fmtflags flags; std::streamsize prec;
+        CoutGuard() : flags(std::cout.flags()), prec(std::cout.precision()) {}
+        ~CoutGuard() { std::cout.flags(flags); std::cout.precision(prec); }
+    } cout_guard;
+    user_format(std::cout, sp.coutfmt);
+    if (sp.coutfmt & 256) std::cout.precision(std::numeric_limits<T>::max_digits10);
     Sx const& ops = a.find("ops")->at(1);
     Sx const& ck = a.find("chk")->at(1);
     bool const with_dists = !sp.dists.empty() || sp.force_acc;
@@ -621,17 +706,20 @@ template <typename T> Sx run_case(std::string const& cmd, Sx const& a)
         C chk = hep::make_plain_chkpt<T, script_engine>(script_engine(pos0));
         BuiltinCb<C> bcb{hep::callback<C>(modes[sp.mode & 3], sp.filename, sp.target), sp.mode, sp.filename, sp.keepfile, sp.cbref}; ScriptCb<C> scb{sp.script};
         BuiltinCb<C, hep::plain_chkpt<T>> bbb{hep::callback<hep::plain_chkpt<T>>(modes[sp.mode & 3], sp.filename, sp.target), sp.mode, sp.filename, sp.keepfile, sp.cbref};
-        result = run_ops<T>(sp, ops, chk, [&](std::vector<std::size_t> const& calls, C const& c) {
+        result = run_ops<T>(sp, ops, chk, [&](std::vector<std::size_t> const& calls, C const& c) -> C {
             auto i1 = mk_int1<T>(sp); auto i0 = mk_int0<T>(sp);
-            if (sp.builtin && sp.cbbase) return with_dists ? hep::plain(i1, calls, c, bbb) : hep::plain(i0, calls, c, bbb);
-            if (with_dists) return sp.builtin ? hep::plain(i1, calls, c, bcb) : hep::plain(i1, calls, c, scb);
-            return sp.builtin ? hep::plain(i0, calls, c, bcb) : hep::plain(i0, calls, c, scb); },
+            std::uint64_t const before = g_ctx->idx;
+            C r = (sp.builtin && sp.cbbase) ? (with_dists ? hep::plain(i1, calls, c, bbb) : hep::plain(i0, calls, c, bbb))
+                : with_dists ? (sp.builtin ? hep::plain(i1, calls, c, bcb) : hep::plain(i1, calls, c, scb))
+                : (sp.builtin ? hep::plain(i0, calls, c, bcb) : hep::plain(i0, calls, c, scb));
+            check_function_state(i1.function().own_calls + i0.function().own_calls, g_ctx->idx - before);
+            return r; },
             [&](Spec<T>& my, std::vector<std::size_t> const& calls, C const& c) {
 #ifdef VERIF_MPI
             MpiBuiltinCb<C> mb{hep::mpi_callback<C>(modes[my.mode & 3], my.filename, my.target)}; MpiScriptCb<C> ms{my.script};
             auto j1 = mk_int1<T>(my); auto j0 = mk_int0<T>(my);
-            if (with_dists) return my.builtin ? hep::mpi_plain(MPI_COMM_WORLD, j1, calls, c, mb) : hep::mpi_plain(MPI_COMM_WORLD, j1, calls, c, ms);
-            return my.builtin ? hep::mpi_plain(MPI_COMM_WORLD, j0, calls, c, mb) : hep::mpi_plain(MPI_COMM_WORLD, j0, calls, c, ms);
+            if (with_dists) return my.builtin ? hep::mpi_plain(shim_comm(), j1, calls, c, mb) : hep::mpi_plain(shim_comm(), j1, calls, c, ms);
+            return my.builtin ? hep::mpi_plain(shim_comm(), j0, calls, c, mb) : hep::mpi_plain(shim_comm(), j0, calls, c, ms);
 #else
             (void) my; (void) calls; return c;
 #endif
@@ -645,17 +733,26 @@ template <typename T> Sx run_case(std::string const& cmd, Sx const& a)
             : hep::make_vegas_chkpt<T, script_engine>(static_cast<std::size_t>(ck.at(1).N_()), static_cast<T>(ck.at(2).F_()), script_engine(pos0));
         BuiltinCb<C> bcb{hep::callback<C>(modes[sp.mode & 3], sp.filename, sp.target), sp.mode, sp.filename, sp.keepfile, sp.cbref}; ScriptCb<C> scb{sp.script};
         BuiltinCb<C, hep::vegas_chkpt<T>> bbb{hep::callback<hep::vegas_chkpt<T>>(modes[sp.mode & 3], sp.filename, sp.target), sp.mode, sp.filename, sp.keepfile, sp.cbref};
-        result = run_ops<T>(sp, ops, chk, [&](std::vector<std::size_t> const& calls, C const& c) {
+        result = run_ops<T>(sp, ops, chk, [&](std::vector<std::size_t> const& calls, C const& c) -> C {
+            if (!sp.fwide.empty())
+            {
+                // a user function whose return type is wider than the numeric type of the integration
+                auto iw = hep::make_integrand<T>(WideIntegrand<T>{sp.fwide}, sp.dims);
+                return hep::vegas(iw, calls, c, scb);
+            }
             auto i1 = mk_int1<T>(sp); auto i0 = mk_int0<T>(sp);
-            if (sp.builtin && sp.cbbase) return with_dists ? hep::vegas(i1, calls, c, bbb) : hep::vegas(i0, calls, c, bbb);
-            if (with_dists) return sp.builtin ? hep::vegas(i1, calls, c, bcb) : hep::vegas(i1, calls, c, scb);
-            return sp.builtin ? hep::vegas(i0, calls, c, bcb) : hep::vegas(i0, calls, c, scb); },
+            std::uint64_t const before = g_ctx->idx;
+            C r = (sp.builtin && sp.cbbase) ? (with_dists ? hep::vegas(i1, calls, c, bbb) : hep::vegas(i0, calls, c, bbb))
+                : with_dists ? (sp.builtin ? hep::vegas(i1, calls, c, bcb) : hep::vegas(i1, calls, c, scb))
+                : (sp.builtin ? hep::vegas(i0, calls, c, bcb) : hep::vegas(i0, calls, c, scb));
+            check_function_state(i1.function().own_calls + i0.function().own_calls, g_ctx->idx - before);
+            return r; },
             [&](Spec<T>& my, std::vector<std::size_t> const& calls, C const& c) {
 #ifdef VERIF_MPI
             MpiBuiltinCb<C> mb{hep::mpi_callback<C>(modes[my.mode & 3], my.filename, my.target)}; MpiScriptCb<C> ms{my.script};
             auto j1 = mk_int1<T>(my); auto j0 = mk_int0<T>(my);
-            if (with_dists) return my.builtin ? hep::mpi_vegas(MPI_COMM_WORLD, j1, calls, c, mb) : hep::mpi_vegas(MPI_COMM_WORLD, j1, calls, c, ms);
-            return my.builtin ? hep::mpi_vegas(MPI_COMM_WORLD, j0, calls, c, mb) : hep::mpi_vegas(MPI_COMM_WORLD, j0, calls, c, ms);
+            if (with_dists) return my.builtin ? hep::mpi_vegas(shim_comm(), j1, calls, c, mb) : hep::mpi_vegas(shim_comm(), j1, calls, c, ms);
+            return my.builtin ? hep::mpi_vegas(shim_comm(), j0, calls, c, mb) : hep::mpi_vegas(shim_comm(), j0, calls, c, ms);
 #else
             (void) my; (void) calls; return c;
 #endif
@@ -669,17 +766,20 @@ template <typename T> Sx run_case(std::string const& cmd, Sx const& a)
             : hep::make_multi_channel_chkpt<T, script_engine>(static_cast<T>(ck.at(1).F_()), static_cast<T>(ck.at(2).F_()), script_engine(pos0));
         BuiltinCb<C> bcb{hep::callback<C>(modes[sp.mode & 3], sp.filename, sp.target), sp.mode, sp.filename, sp.keepfile, sp.cbref}; ScriptCb<C> scb{sp.script};
         BuiltinCb<C, hep::multi_channel_chkpt<T>> bbb{hep::callback<hep::multi_channel_chkpt<T>>(modes[sp.mode & 3], sp.filename, sp.target), sp.mode, sp.filename, sp.keepfile, sp.cbref};
-        result = run_ops<T>(sp, ops, chk, [&](std::vector<std::size_t> const& calls, C const& c) {
+        result = run_ops<T>(sp, ops, chk, [&](std::vector<std::size_t> const& calls, C const& c) -> C {
             auto i1 = mk_mc1<T>(sp); auto i0 = mk_mc0<T>(sp);
-            if (sp.builtin && sp.cbbase) return with_dists ? hep::multi_channel(i1, calls, c, bbb) : hep::multi_channel(i0, calls, c, bbb);
-            if (with_dists) return sp.builtin ? hep::multi_channel(i1, calls, c, bcb) : hep::multi_channel(i1, calls, c, scb);
-            return sp.builtin ? hep::multi_channel(i0, calls, c, bcb) : hep::multi_channel(i0, calls, c, scb); },
+            std::uint64_t const before = g_ctx->idx;
+            C r = (sp.builtin && sp.cbbase) ? (with_dists ? hep::multi_channel(i1, calls, c, bbb) : hep::multi_channel(i0, calls, c, bbb))
+                : with_dists ? (sp.builtin ? hep::multi_channel(i1, calls, c, bcb) : hep::multi_channel(i1, calls, c, scb))
+                : (sp.builtin ? hep::multi_channel(i0, calls, c, bcb) : hep::multi_channel(i0, calls, c, scb));
+            check_function_state(i1.function().own_calls + i0.function().own_calls, g_ctx->idx - before);
+            return r; },
             [&](Spec<T>& my, std::vector<std::size_t> const& calls, C const& c) {
 #ifdef VERIF_MPI
             MpiBuiltinCb<C> mb{hep::mpi_callback<C>(modes[my.mode & 3], my.filename, my.target)}; MpiScriptCb<C> ms{my.script};
             auto j1 = mk_mc1<T>(my); auto j0 = mk_mc0<T>(my);
-            if (with_dists) return my.builtin ? hep::mpi_multi_channel(MPI_COMM_WORLD, j1, calls, c, mb) : hep::mpi_multi_channel(MPI_COMM_WORLD, j1, calls, c, ms);
-            return my.builtin ? hep::mpi_multi_channel(MPI_COMM_WORLD, j0, calls, c, mb) : hep::mpi_multi_channel(MPI_COMM_WORLD, j0, calls, c, ms);
+            if (with_dists) return my.builtin ? hep::mpi_multi_channel(shim_comm(), j1, calls, c, mb) : hep::mpi_multi_channel(shim_comm(), j1, calls, c, ms);
+            return my.builtin ? hep::mpi_multi_channel(shim_comm(), j0, calls, c, mb) : hep::mpi_multi_channel(shim_comm(), j0, calls, c, ms);
 #else
             (void) my; (void) calls; return c;
 #endif
